@@ -40,10 +40,13 @@ var allValidKinds = func() map[int64]bool {
 
 // legal kinds per reflect.Value method (nil = only validity is required)
 var valueMethodKinds = map[string]map[int64]bool{
-	"Len":             kindSet("Array", "Chan", "Map", "Slice", "String"),
-	"Cap":             kindSet("Array", "Chan", "Slice"),
-	"Index":           kindSet("Array", "Slice", "String"),
-	"Slice":           kindSet("Array", "Slice", "String"),
+	"Len":   kindSet("Array", "Chan", "Map", "Slice", "String"),
+	"Cap":   kindSet("Array", "Chan", "Slice"),
+	"Index": kindSet("Array", "Slice", "String"),
+	// (an Array can be sliced only when it is addressable, which a value obtained from
+	// reflect.ValueOf never is: on template data Slice is legal for slices and strings only)
+	"Slice":           kindSet("Slice", "String"),
+	"Slice3":          kindSet("Slice"),
 	"MapKeys":         kindSet("Map"),
 	"MapIndex":        kindSet("Map"),
 	"MapRange":        kindSet("Map"),
